@@ -333,6 +333,9 @@ def _len(ex, st, args, kw, node):
         return z3.IntVal(len(x))
     if isinstance(x, SeqV):
         return x.length
+    from . import objects
+    if isinstance(x, objects.SLRef):
+        return st.heap[x.sid].length
     if isinstance(x, DictV):
         return z3.IntVal(len(x.items))
     if isinstance(x, StrV):
